@@ -503,4 +503,96 @@ theorem Signal.parse_encode (s : Signal) (h : s.wf = true) :
   have hcrc : Crc32.crc32 s.bodyFlat = bitsToNat (Crc32.crcBits s.bodyFlat) := rfl
   simp only [Option.map_some, ht, crc32_residue, hcrc, beq_self_eq_true]
 
+/-! ### `create_binary_signal` -/
+section
+open DashLive.Events
+
+/-- the PTS `create_binary_signal` puts into the splice: `pt·90000 // timescale`, 33 bits -/
+def schedPts (s : Sched) (pt : Int) : Nat := (Int.fmod (pydiv (pt * 90000) s.timescale) (2 ^ 33)).toNat
+
+/-- the break duration in 90 kHz ticks -/
+def schedBreak (s : Sched) : Nat := (pydiv (s.duration * 90000) s.timescale).toNat
+
+theorem fmod_two_cases (x : Int) : (Int.fmod x 2).toNat = 0 ∨ (Int.fmod x 2).toNat = 1 := by
+  rw [Int.fmod_eq_emod_of_nonneg x (by decide : (0:Int) ≤ 2)]
+  have := Int.emod_two_eq x
+  omega
+
+theorem schedPts_lt (s : Sched) (pt : Int) : schedPts s pt < 2 ^ 33 := by
+  unfold schedPts
+  rw [Int.fmod_eq_emod_of_nonneg _ (by decide : (0:Int) ≤ 2 ^ 33)]
+  have h1 := Int.emod_lt_of_pos (pydiv (pt * 90000) s.timescale) (by decide : (0:Int) < 2 ^ 33)
+  have h2 := Int.emod_nonneg (pydiv (pt * 90000) s.timescale) (by decide : (2:Int) ^ 33 ≠ 0)
+  omega
+
+/-- the shape of every signal `create_binary_signal` builds -/
+def eventSignal (eid pts dur pid an ae parity : Nat) (ar : Bool) : Signal :=
+  { tableId := 0xFC, sectionSyntaxIndicator := false, privateIndicator := false, sapType := 0,
+    protocolVersion := 0, encryptedPacket := false, encryptionAlgorithm := 0, ptsAdjustment := 0,
+    cwIndex := 0xFF, tier := 0xFFF,
+    command := .insert
+      { eventId := eid, cancel := false, outOfNetwork := true, immediate := false,
+        spliceTime := some ⟨some pts⟩, components := [], breakDuration := some ⟨ar, dur⟩,
+        uniqueProgramId := pid, availNum := an, availsExpected := ae },
+    descriptors := [.segmentation 0x43554549
+      { eventId := an, cancel := false, deliveryNotRestricted := true, webDeliveryAllowed := true,
+        noRegionalBlackout := true, archiveAllowed := true, deviceRestrictions := 3, duration := some 0,
+        upidType := 0x0F, upid := [], typeId := 0x34 + parity, segmentNum := 0, segmentsExpected := 0,
+        subSegmentNum := 0, subSegmentsExpected := 0 }] }
+
+theorem eventSignal_wf (eid pts dur pid an ae parity : Nat) (ar : Bool)
+    (h1 : eid < 2 ^ 32) (h2 : pts < 2 ^ 33) (h3 : dur < 2 ^ 33) (h4 : pid < 2 ^ 16) (h5 : an < 2 ^ 8)
+    (h6 : ae < 2 ^ 8) (hp : parity = 0 ∨ parity = 1) :
+    (eventSignal eid pts dur pid an ae parity ar).wf = true := by
+  have h5' : an < 2 ^ 32 := by omega
+  rcases hp with rfl | rfl <;>
+  simp [eventSignal, Signal.wf, Command.wf, SpliceInsert.wf, SpliceTime.wf, BreakDuration.wf, Descriptor.wf,
+    SegDesc.wf, hasSubSegments, Signal.sectionLength, Command.bytes, Signal.loopBytes, Descriptor.bodyBytes,
+    Descriptor.flat, Descriptor.encFields, SegDesc.encFields, Command.enc, SpliceInsert.enc, SpliceTime.enc,
+    BreakDuration.enc, Descriptor.identifier, putBytes, h1, h2, h3, h4, h5, h5', h6]
+
+theorem createBinarySignal_spec (s : Sched) (programId eventId pt : Int) (sig : Signal)
+    (h : createBinarySignal s programId eventId pt = some sig) :
+    sig.wf = true ∧ 0 ≤ eventId ∧
+    ∃ si, sig.command = .insert si ∧ si.eventId = eventId.toNat ∧ si.cancel = false ∧
+      si.spliceTime = some ⟨some (schedPts s pt)⟩ ∧
+      si.breakDuration = some ⟨Int.fmod eventId 2 == 0, schedBreak s⟩ ∧
+      si.uniqueProgramId = programId.toNat := by
+  unfold createBinarySignal at h
+  simp only [] at h
+  by_cases hn : s.count > 0 ∧ pydiv s.count 2 < 255
+  · simp only [hn, and_self, if_true] at h
+    by_cases hg : s.timescale = 0 ∨ eventId < 0 ∨ eventId ≥ 2 ^ 32 ∨ pydiv (s.duration * 90000) s.timescale < 0 ∨
+        pydiv (s.duration * 90000) s.timescale ≥ 2 ^ 33 ∨ programId < 0 ∨ programId ≥ 2 ^ 16 ∨
+        1 + pydiv eventId 2 ≥ 256
+    · simp only [hg, if_true] at h; cases h
+    · simp only [hg, if_false] at h
+      simp only [not_or, Int.not_lt, Int.not_le] at hg
+      obtain ⟨hts, hid0, hid1, hd0, hd1, hp0, hp1, hav⟩ := hg
+      injection h with h
+      subst h
+      refine ⟨?_, hid0, _, rfl, rfl, rfl, rfl, rfl, rfl⟩
+      have hae : 1 + pydiv s.count 2 < 256 := by omega
+      have hae0 : 0 ≤ pydiv s.count 2 := by
+        unfold pydiv; rw [Int.fdiv_eq_ediv_of_nonneg _ (by decide)]; omega
+      have han0 : 0 ≤ pydiv eventId 2 := by
+        unfold pydiv; rw [Int.fdiv_eq_ediv_of_nonneg _ (by decide)]; omega
+      exact eventSignal_wf eventId.toNat _ _ programId.toNat _ _ _ _ (by omega) (schedPts_lt s pt)
+        (by omega) (by omega) (by omega) (by omega) (fmod_two_cases eventId)
+  · simp only [hn, if_false] at h
+    by_cases hg : s.timescale = 0 ∨ eventId < 0 ∨ eventId ≥ 2 ^ 32 ∨ pydiv (s.duration * 90000) s.timescale < 0 ∨
+        pydiv (s.duration * 90000) s.timescale ≥ 2 ^ 33 ∨ programId < 0 ∨ programId ≥ 2 ^ 16 ∨
+        (0 : Int) ≥ 256
+    · simp only [hg, if_true] at h; cases h
+    · simp only [hg, if_false] at h
+      simp only [not_or, Int.not_lt, Int.not_le] at hg
+      obtain ⟨hts, hid0, hid1, hd0, hd1, hp0, hp1, hav⟩ := hg
+      injection h with h
+      subst h
+      refine ⟨?_, hid0, _, rfl, rfl, rfl, rfl, rfl, rfl⟩
+      exact eventSignal_wf eventId.toNat _ _ programId.toNat 0 0 _ _ (by omega) (schedPts_lt s pt)
+        (by omega) (by omega) (by decide) (by decide) (fmod_two_cases eventId)
+
+end
+
 end DashLive.Scte35
